@@ -95,26 +95,16 @@ type RefInfo struct {
 	F      []byte
 	Trace  []int
 	Stable bool // two reference builds (different GOMAXPROCS) agreed
-	// Volatile span [Lo,Hi): only for builds signed through nfpm's key-file
-	// path, whose OpenPGP signatures are salted by the library and therefore
-	// differ from build to build. Learned from three reference builds, never
-	// from format knowledge. Lo == Hi means none.
-	Lo, Hi int
+	// KeyFileSigned: signed through nfpm's key-file path; salted signatures,
+	// no byte oracle (Stable stays false, which is not an instability).
+	KeyFileSigned bool
 	Signer *SimSigner
 	Notes  []string
 	Builds int
 }
 
-// Match reports whether b equals F outside the volatile span.
-func (r *RefInfo) Match(b []byte) bool {
-	if len(b) != len(r.F) {
-		return false
-	}
-	if r.Lo == r.Hi {
-		return bytes.Equal(b, r.F)
-	}
-	return bytes.Equal(b[:r.Lo], r.F[:r.Lo]) && bytes.Equal(b[r.Hi:], r.F[r.Hi:])
-}
+// Match reports whether b equals the reference bytes.
+func (r *RefInfo) Match(b []byte) bool { return bytes.Equal(b, r.F) }
 
 func diffSpan(a, b []byte) (lo, hi int) {
 	n := len(a)
@@ -160,32 +150,12 @@ func (rt *Runtime) Reference(w *World, format, sign, cfg string, gmp int) (ref *
 		return ref, true, nil
 	}
 	if needsSignBubble(w, &c) {
-		o3 := rt.ExecCase(w, &c)
-		ref.Builds++
-		if !o3.Res.OK() || len(o2.Res.Bytes) != len(ref.F) || len(o3.Res.Bytes) != len(ref.F) {
-			ref.Notes = append(ref.Notes, fmt.Sprintf("key-file signed reference %s changes length between builds; byte oracle unavailable", format))
-			return ref, true, nil
-		}
-		l1, h1 := diffSpan(ref.F, o2.Res.Bytes)
-		l2, h2 := diffSpan(ref.F, o3.Res.Bytes)
-		if h1 == 0 && h2 == 0 {
-			ref.Stable = true
-			return ref, true, nil
-		}
-		if h1 == 0 {
-			l1, h1 = l2, h2
-		}
-		if h2 == 0 {
-			l2, h2 = l1, h1
-		}
-		ref.Lo, ref.Hi = min(l1, l2), max(h1, h2)
-		// a volatile span must be a small part of the package: the signature
-		if ref.Hi-ref.Lo > 4096 {
-			ref.Notes = append(ref.Notes, fmt.Sprintf("key-file signed reference %s: volatile span %d bytes is more than signatures explain", format, ref.Hi-ref.Lo))
-			ref.Lo, ref.Hi = 0, 0
-			return ref, true, nil
-		}
-		ref.Stable = true
+		// nfpm's key-file path makes OpenPGP signatures that the library salts
+		// (and whose length varies by a few bytes): such packages are not a
+		// function of the input, so there is no byte oracle for them. The same
+		// scenario's callback-signed variant (deterministic simulated signer)
+		// carries the byte oracle for signed packages.
+		ref.KeyFileSigned = true
 		return ref, true, nil
 	}
 	ref.Stable = bytes.Equal(ref.F, o2.Res.Bytes)
